@@ -186,6 +186,12 @@ class MemoryStorageBackend(StorageBackend):
                 memento.invocation_metadata.fn_reference_with_args.fn_reference_with_arg_hash()
             )
         self.mementos.pop(qualified_name, None)
+        # Custom metadata can exist for calls of the function that have no memento (yet)
+        prefix = qualified_name + "/"
+        for memento_key in [k for k in self.metadata if k.startswith(prefix)]:
+            del self.metadata[memento_key]
+        for memento_key in [k for k in self.result if k.startswith(prefix)]:
+            del self.result[memento_key]
 
     def to_dict(self):
         config = {"type": "memory"}
